@@ -325,3 +325,10 @@ def r_reord(P, R):
     decorated_set(P, R)
     raw_entries(P, R)
 r_reord.NAME = 'R-REORD'
+
+
+def r_context(P, R):
+    """Only the protocol / context-manager part (used by C17)."""
+    au.set_parents(P.func('dd.bdd._ReorderingContext.__exit__').node)
+    protocol(P, R)
+r_context.NAME = 'R-REORD(context restores its flag)'
